@@ -89,10 +89,8 @@ SPECS = {
         }],
         'rule': ('one run = one seeded history of 10-36 wallet operations (keys, fund, utxos_update / transactions_update / scan / '
                  'utxo_add, send / send_to / sweep with drawn amounts, fees, change counts and broadcast flag, later send of an '
-                 'unsent transaction, import as raw/dict/object, delete, remove_unconfirmed, bumpfee, reopen / second handle / '
-                 'drop / gc, mine, clock) on 1-2 wallets (HD, single-key, m-of-n multisig; segwit / p2sh-segwit / legacy; one or two '
-                 'database files) with provider, commit-failure and crash faults; ledger invariants checked on the live handle after '
-                 'most operations and on a freshly opened handle periodically and at the end. Arm crashsweep: a fault-free history, '
+                 'unsent transaction, import as raw/dict/object, delete, remove_unconfirmed, bumpfee, read-only listings / exports / info(), reopen / second handle / drop / gc, mine, clock) on 1-2 wallets (HD - in 30 % of the runs with a second account -, single-key, m-of-n multisig; segwit / p2sh-segwit / legacy; one or two '
+                 'database files) with provider, commit-failure and crash faults; incoming transactions come with version 1 or 2 and with or without a locktime; ledger invariants (per account where there are two) and reload fidelity of own and incoming transactions checked on the live handle after most operations and on a freshly opened handle periodically and at the end. Arm crashsweep: a fault-free history, '
                  'then ONE operation (send / sweep / update / delete / bumpfee / new_key / utxo_add) re-executed from a snapshot once '
                  'per crash point (before and after every wallet-database commit), dirty restart and full check on a fresh handle '
                  'each time - the crash points of that operation are enumerated completely. Non-trivial: >= 5 operations and >= 1 '
@@ -178,8 +176,7 @@ SPECS = {
             },
         }],
         'rule': ('one run = one ceremony: m-of-n (n<=4 quick, <=7 thorough) cosigners, 2-3 of them real wallets in separate '
-                 'databases created from independently permuted key lists, the rest external signers; then 8-24 events: ask '
-                 'parties for the key at an explicit path, fund, create a spend, sign (holder / external cosigner / foreign key), '
+                 'databases created from independently permuted key lists, the rest external signers; then 8-24 events: ask parties for the key at an explicit path or for the next key of an explicit cosigner branch, fund, create a spend, sign (holder / external cosigner / foreign key), '
                  'hand a copy over as object / dict / raw hex through a channel that drops, duplicates and reorders, import, '
                  'send, tamper. After every event every touched copy is judged by the library (verify / verified / pushed) and '
                  'by the reference node against the real previous output. Non-trivial: >= 5 events and >= 1 successful library '
@@ -209,14 +206,14 @@ SPECS = {
         'rule': ('one run = one signing / tampering history over transactions created by real wallets (single-signer P2PKH / '
                  'P2WPKH / P2SH-P2WPKH and m-of-n P2SH / P2WSH / P2SH-P2WSH): sign with subsets of the right keys over several '
                  'calls, re-sign, sign with a foreign key, export / import as object, dict and raw, serialize -> parse -> re-attach '
-                 'values, and 15 kinds of single-field tampering; after every event verify() is compared with the reference '
+                 'values, 15 kinds of single-field tampering of the object and 6 of the wire form, and rounds in which the missing cosigners sign one per call in a drawn order; after every event verify() is compared with the reference '
                  'node\'s per-input count of valid signatures by distinct keys of the previous output\'s key set. Non-trivial: '
                  '>= 5 events and >= 1 successful library call; distinct = distinct event-log digests.'),
         'state_measure': 'distinct (witness type, m, n, #signers bucket, tampered, library verdict, node verdict, last hand-off form)',
         'components': {'real': WALLET_REAL, 'stub': WALLET_STUB},
         'assumptions': [
             'soundness is judged against the previous output on the simulated chain (m and key set come from its script, never from the spending transaction)',
-            'tampering edits the transaction object the way an in-process attacker or a buggy caller would; raw-byte flips are covered by the parse round trip of tampered copies',
+            'tampering edits the transaction object the way an in-process attacker or a buggy caller would (tamper) and the serialized form in transit (tamper_wire: hash-type byte, a byte of a DER signature or public key, amount, sequence, locktime), which the library then parses',
         ],
     },
     'C15': {
@@ -232,7 +229,7 @@ SPECS = {
             },
         }],
         'rule': ('one run = one process-lifetime history of 4-9 BIP38 operations (intermediate passphrase with / without lot+sequence '
-                 'and explicit salt, new EC-multiplied encrypted key with / without explicit seed, encrypt a fresh Key/HDKey, decrypt '
+                 'and explicit salt, new EC-multiplied encrypted key with / without explicit seed, encrypt a fresh Key/HDKey or a private key with a drawn byte shape (last byte 01 / 00, leading zero bytes, 1, n-1), decrypt '
                  'with the right / a wrong / a differently composed passphrase, decrypt a string with one changed character, other '
                  'entropy users in between, entropy source failing, parent and forked child both generating) over a simulated entropy '
                  'source that never repeats and counts the bytes drawn inside each call. Non-trivial: >= 4 operations, >= 2 successful '
@@ -242,7 +239,7 @@ SPECS = {
                        'stub': ['entropy source (os.urandom, random._urandom)', 'process fork re-keys the simulated source']},
         'assumptions': [
             'a generation call that draws no bytes from the entropy source during the call cannot be fresh',
-            'agreement with the BIP38 specification is checked by round trip and address/compression checks, not by an independent BIP38 implementation',
+            'agreement with the BIP38 specification is checked against an independent implementation (ref/bip38.py; AES-256 written out, scrypt from hashlib) that reproduces the nine vectors published in BIP-0038: plain-mode encryptions are compared string for string, decryptions and created EC-multiplied keys by key, compression flag, address hash and lot/sequence',
         ],
     },
     'C16': {
